@@ -16,7 +16,8 @@ TRUSTED = ['the clock (irclib.time.time), the composite outFilter chain (any fun
            'configuration enter the model as inputs; IrcMsg.__eq__ is modelled as equality of (command, content key)',
            'of _truncateMsg only the UTF-8 encodability test is modelled (an unencodable message leaves takeMsg through the firewall); truncation itself, label tagging and echo emulation are not modelled (they do not touch the send state); '
            'they run in the differential test, where an exception in them would show up as a lost message']
-ASSUMPTIONS = ['driver.reconnect() is an observable event of the model (the stub driver does nothing); a real driver resets the Irc on reconnect, which clears both queues, so the oracle counts a reconnect asked for by takeMsg while accepted messages are waiting as a loss (theorem C19_reconnect_only_idle: it is only ever asked for with nothing pending)',
+ASSUMPTIONS = ['settings may be changed on the live bot between calls (history op 7): each call is judged against the values in force when it is made (the code reads the registry at call time; t19 pins that)',
+               'driver.reconnect() is an observable event of the model (the stub driver does nothing); a real driver resets the Irc on reconnect, which clears both queues, so the oracle counts a reconnect asked for by takeMsg while accepted messages are waiting as a loss (theorem C19_reconnect_only_idle: it is only ever asked for with nothing pending)',
                'a message whose line has no UTF-8 form (lone surrogate) cannot be sent at all: that takeMsg discards it (UnicodeEncodeError from _truncateMsg behind the firewall, since the fix of C06.F19) is not counted as a loss; the oracle accepts this only when the message, as the filters left it, really cannot be encoded, and demands that nothing unencodable is ever handed to the driver',
                'world.testing/log.testing off; each queued IrcMsg is a fresh object; supybot.protocols.irc.umodes empty',
                'die() before the end of MOTD (afterConnect false) closes the driver at once by design; every other kill of the driver (by takeMsg, by die() after 376/422, by reset) is checked: nothing accepted may then be waiting in the fastqueue or the queue',
@@ -119,7 +120,8 @@ def run_impl(case):
     E = env()
     irclib, ircmsgs, conf = E['irclib'], E['ircmsgs'], E['conf']
     cfg, ops = case['cfg'], case['ops']
-    set_conf(conf, cfg)
+    cur = list(cfg)          # the configuration in force (op 7 changes it on the live bot)
+    set_conf(conf, cur)
     sess = Sess()
     sess.ft = E['FakeTime']()
     sess.info, sess.keep, sess.seen, sess.dropped, sess.cur, sess.out = {}, [], [], [], None, None
@@ -193,6 +195,10 @@ def run_impl(case):
                     irc.reset()
                 elif code == 5:
                     irc.feedMsg(ircmsgs.IrcMsg(prefix='srv', command='376', args=('test', 'End of MOTD')))
+                elif code == 7:
+                    # `config supybot.protocols.irc.<setting> v` on the running bot
+                    cur[o[1]] = (int(bool(o[2])) if o[1] in (2, 3) else o[2])
+                    set_conf(conf, cur)
                 else:
                     irc.feedMsg(ircmsgs.IrcMsg(prefix='srv', command='PONG', args=('srv', 'x')))
                 after = lists()
@@ -245,6 +251,7 @@ def run_impl(case):
                 fact['died'] = 'die' in dl
             fact['after'] = lists()
             fact['now'] = sess.ft.T
+            fact['cfg'] = list(cur)
             fact['zombie'], fact['afterConnect'] = bool(irc.zombie), bool(irc.afterConnect)
             fact['after_lastTake'], fact['after_lastJoin'] = irc.lastTake, irc.queue.lastJoin
             obs.append([evs, snap()])
@@ -281,6 +288,8 @@ def oracle(case, facts):
     tail_start = None
     for i, f in enumerate(facts):
         code = f['op']
+        cfg = f['cfg']                              # the settings in force when this call was made
+        throttle, jlimit = cfg[0], cfg[1]
         for m in f.get('accepted', []):
             seq[id(m)] = len(seq)
             accepted.append(m)
@@ -550,6 +559,44 @@ def gen_tail_case(rng, hostile):
     return add_tail(c, T)
 
 
+def gen_setcfg_case(rng):
+    """settings changed on the live bot between calls (throttleTime most often; rateLimit.join, queuing.duplicates, ping, ping.interval):
+    every call must obey the value in force when it is made"""
+    cfg = [rng.choice([0, 0, 0, 1, 2]), rng.choice([0, 0, 3]), int(rng.random() < 0.3), int(rng.random() < 0.7), rng.choice([3, 10, 120]), 0]
+    T = rng.choice([1, 20])
+    ops = [[4, T]]
+    for _ in range(rng.randint(0, 4)):
+        T += 1
+        ops.append([2, T])
+    if rng.random() < 0.8:
+        ops.append([5])
+    n = rng.randint(10, 50)
+    for i in range(n):
+        r = rng.random()
+        if r < 0.14:
+            k = rng.choice([0, 0, 0, 0, 1, 1, 2, 3, 4])
+            v = {0: rng.choice([0, 1, 2, 5, 10, 10]), 1: rng.choice([0, 3, 10]), 2: rng.randrange(2), 3: rng.randrange(2), 4: rng.choice([3, 10, 120])}[k]
+            ops.append([7, k, v])
+        elif r < 0.50:
+            for _ in range(rng.randint(1, 3)):
+                ops.append([0, gen_msg(rng, 0, False, T)])
+        elif r < 0.55:
+            ops.append([1, gen_msg(rng, 0, False, T)])
+        elif r < 0.96:
+            for _ in range(rng.randint(1, 5)):
+                T += rng.choice([0, 1, 1, 1, 2, 3])
+                ops.append([2, T])
+        elif r < 0.98:
+            ops.append([6])
+        else:
+            T += 1
+            ops.append([4, T])
+    for i, o in enumerate(ops):
+        if o[0] in (0, 1):
+            o[1][0] = i
+    return {'cfg': cfg, 'ops': ops}
+
+
 def gen_keepalive_case(rng):
     """connected bot, keep-alive PING on with a short interval, throttleTime > 0 (mostly), several messages queued, the clock
     running past ping.interval with no PONG (sometimes one), sometimes a die(): throttled calls must stop at the throttle"""
@@ -661,6 +708,12 @@ CORPUS = [
                                           [1, M(8, 'PONG', 1, 0, 0, 1)], [0, M(9, 'MODE', 1, 1, 0, 1)], [0, M(10, 'JOIN', 2, 0, 0, 1)], [0, M(11, 'NOTICE', 3, 3, 1, 1)],
                                           [2, 5], [2, 7], [2, 9], [2, 11], [2, 13], [2, 15], [2, 17], [3], [2, 19], [2, 21]]},
     {'cfg': [0, 0, 0, 1, 120, 0], 'ops': [[4, 1], [2, 2], [2, 3], [2, 4], [5], [0, M(5, 'PRIVMSG', 0, 0, 0, 1)], [3], [2, 6], [2, 7]]},
+    # throttleTime raised on the live bot (booted with 0): from then on releases must be 10 s apart; then lowered again; rateLimit.join and
+    # queuing.duplicates changed live as well
+    {'cfg': [0, 0, 0, 0, 120, 0], 'ops': [[4, 1], [2, 2], [2, 3], [2, 4], [5], [0, M(5, 'PRIVMSG', 0)], [0, M(6, 'PRIVMSG', 1)], [0, M(7, 'PRIVMSG', 2)],
+                                          [0, M(8, 'PRIVMSG', 3)], [2, 5], [7, 0, 10], [2, 6], [2, 7], [2, 16], [2, 17], [7, 0, 1], [2, 18], [2, 19]]},
+    {'cfg': [0, 0, 0, 0, 120, 0], 'ops': [[4, 1], [2, 2], [2, 3], [2, 4], [5], [0, M(5, 'JOIN', 0)], [0, M(6, 'JOIN', 1)], [0, M(7, 'JOIN', 1)], [2, 5], [7, 1, 10],
+                                          [2, 6], [2, 7], [7, 2, 1], [0, M(13, 'JOIN', 1)], [0, M(14, 'JOIN', 2)], [2, 16], [2, 17], [7, 1, 0], [2, 18], [2, 19]]},
     # keep-alive PING unanswered for more than ping.interval while two messages wait behind the throttle (and the same on a quitting bot):
     # the throttled second call of the round must stop at the throttle, not reach the keep-alive branch (reconnect = reset = queues wiped)
     {'cfg': [2, 0, 0, 1, 5, 0], 'ops': [[4, 1], [2, 2], [2, 3], [2, 4], [5], [2, 10], [2, 11], [2, 12], [0, M(9, 'PRIVMSG', 0)], [0, M(10, 'PRIVMSG', 1)],
@@ -745,6 +798,8 @@ def run(ctx):
         cases.append((gen_die_case(rng), 'die-after-motd'))
     for _ in range(ctx.n(250)):
         cases.append((gen_keepalive_case(rng), 'keepalive-throttled'))
+    for _ in range(ctx.n(300)):
+        cases.append((gen_setcfg_case(rng), 'settings-changed-live'))
     for _ in range(ctx.n(200)):
         cases.append((gen_join_tail(rng), 'join-rate-polling-tail'))
     for _ in range(ctx.n(150)):
